@@ -6,5 +6,10 @@ def max_safe_iterations : Nat := 150
 def nodata_exceptions : List Nat := [0, 41, 249, 250, 251, 252, 253, 254, 255]
 def nsec3_safe_algorithms : List Nat := [1]
 def nsec3_safe_flags : List Nat := [0, 1]
+def shape_ad_is_denial_secure : Bool := true
+def shape_aggressive_flag_from_evaluator : Bool := true
+def shape_mark_guarded_by_secure_cd_negative : Bool := true
+def shape_nsec3_aggressive_needs_secure : Bool := true
+def shape_validator_error_returns_error : Bool := true
 
 end SdnsVerif.Gen.C02
